@@ -20,7 +20,7 @@ THEOREMS = ["C06_byte_reader", "C06_sample_reader", "C06_channel_reader", "C06_b
 
 def run(chk):
     chk.assumptions = list(rc.ASSUMPTIONS)
-    proof_ok = rc.proof_stage(chk, THEOREMS, e2e_theorems=["C06_written_file_seeks", "C06_written_file_seeks_bytes_channels"])
+    proof_ok = rc.proof_stage(chk, THEOREMS, e2e_theorems=["C06_written_file_seeks", "C06_written_file_seeks_bytes_channels", "C06_byte_written_file_seeks", "C06_channel_written_file_seeks"])
     exe = rc.build_driver(chk, "c06") if proof_ok else None
 
     total_cases = compared = disagreements = soft = vm_n = 0
